@@ -22,8 +22,8 @@ LEVEL = 'model_checking'
 TARGET = 'checks.c07:run'
 
 LENGTHS = {
-    'quick': {'POL': 4, 'IDX': 4, 'INV': 3, 'BLK': 3, 'EXT': 4},
-    'thorough': {'POL': 5, 'IDX': 5, 'INV': 4, 'BLK': 4, 'EXT': 5},
+    'quick': {'POL': 4, 'IDX': 4, 'INV': 3, 'BLK': 3, 'EXT': 4, 'AXT': 3},
+    'thorough': {'POL': 5, 'IDX': 5, 'INV': 4, 'BLK': 4, 'EXT': 5, 'AXT': 4},
 }
 
 PATTERNS = {
@@ -31,6 +31,7 @@ PATTERNS = {
     'IDX': [['Pat', 'Pa'], ['Pr', 'Pr'], ['Pu', 'Put'], ['Ps', 'Pst'], ['Pm', 'Pmt'], ['Pk', 'Pkt'], ['Pt', 'P'], ['Rv', 'Rvt'], ['Rvt', 'Rv'],
             ['Rs', 'Rst'], ['Rst', 'Rs'], ['M01', 'M10'], ['M10', 'M01'], ['I4'], ['Pn'], ['Rn']],
     'INV': [['Si', 'S'], ['S', 'Si'], ['Di', 'D'], ['D', 'Di'], ['k2', 'km'], ['I']],
+    'AXT': [['Ma', 'Mb'], ['Mb', 'Ma'], ['Me', 'Mf'], ['kt', 'kt']],
     'EXT': [['U', 'V'], ['V', 'W'], ['K', 'K'], ['I'], ['Ub', 'Vb']],
     'BLK': [['Rw', 'Dg'], ['Dg', 'Dg'], ['Dg', 'Cl'], ['Rw', 'Cl'], ['Dr', 'Drt'], ['Ddi', 'Dd'], ['DgI'], ['RwT', 'Dr'], ['Dr', 'ClT'], ['RwT', 'ClT']],
 }
@@ -40,6 +41,7 @@ CONTEXT = {
     'INV': ['Q', 'Dx', 'km', 'Sx'],
     'BLK': ['P', 'k2', 'kL', 'Dgt', 'Cl', 'Rw'],
     'EXT': ['P', 'G', 'Gt', 'K', 'W'],
+    'AXT': ['Dt', 'Mc', 'Mg', 'kt'],
 }
 
 
